@@ -2958,20 +2958,24 @@ impl HnswBackend {
     /// Fast path uses the inverted index for exact/in/not/and/or and indexed range filters.
     /// Falls back to `scan()` only for malformed or otherwise uncompilable shapes.
     pub fn ids_for_metadata_filter(&self, filter: &MetadataFilter) -> Vec<u64> {
-        let store = self.doc_store.read();
-        let meta_index = self.metadata_index.read();
-        if let Some(mut bitmap) = compile_filter_to_bitmap(filter, &meta_index) {
-            // Defensive: ensure tombstones are excluded even if a value bitmap is stale.
-            bitmap &= meta_index.alive.clone();
-            return bitmap
-                .iter()
-                .filter_map(|internal_id| {
-                    store
-                        .internal_to_external
-                        .get(internal_id as usize)
-                        .and_then(|v| *v)
-                })
-                .collect();
+        {
+            let store = self.doc_store.read();
+            let meta_index = self.metadata_index.read();
+            if let Some(mut bitmap) = compile_filter_to_bitmap(filter, &meta_index) {
+                // Defensive: ensure tombstones are excluded even if a value bitmap is stale.
+                bitmap &= meta_index.alive.clone();
+                return bitmap
+                    .iter()
+                    .filter_map(|internal_id| {
+                        store
+                            .internal_to_external
+                            .get(internal_id as usize)
+                            .and_then(|v| *v)
+                    })
+                    .collect();
+            }
+            // Both read guards are released here: `scan` takes `doc_store.read()` itself, and a
+            // recursive read deadlocks as soon as a writer is queued between the two acquisitions.
         }
 
         self.scan(|meta| metadata_filter::matches(filter, meta))
